@@ -31,3 +31,6 @@ class LazyGlobals(dict):
 
     def __missing__(self, k):
         return self._live[k]
+
+    def copy_lazy(self):
+        return LazyGlobals(dict(self), self._live)
